@@ -44,6 +44,12 @@ def wigm_prf_main_loop(self):
                      lambda c: implies(and_(in_election(c), c.state == 'elected', truthy(c.pending)), holds_quota(c, E))))
     invariant(E.quota > E.V0)
     invariant(ghost('nH') + ghost('nE') >= E.electionProfile.nSeats)
+    invariant(forall('ref:droop.candidate.Candidate',
+                     lambda c: implies(and_(in_election(c), c.state == 'elected', not_(truthy(c.pending))), c.vote == E.quota)),
+              props=['C06'])      # a candidate whose surplus has been transferred keeps exactly the quota
+    invariant(forall('ref:droop.candidate.Candidate',
+                     lambda c: implies(and_(in_election(c), c.state == 'defeated'), c.vote == E.V0)),
+              props=['C06'])      # an excluded candidate holds no votes
     variant(2 * ghost('nH') + ghost('nP'))
 
 
@@ -90,6 +96,12 @@ def wigm_main_loop(self):
                      lambda c: implies(and_(in_election(c), c.state == 'elected', truthy(c.pending)), holds_quota(c, E))))
     invariant(E.quota > E.V0)
     invariant(ghost('nH') + ghost('nE') >= E.electionProfile.nSeats)       # W2: enough candidates remain to fill the seats
+    invariant(forall('ref:droop.candidate.Candidate',
+                     lambda c: implies(and_(in_election(c), c.state == 'elected', not_(truthy(c.pending))), c.vote == E.quota)),
+              props=['C06'])      # a candidate whose surplus has been transferred keeps exactly the quota
+    invariant(forall('ref:droop.candidate.Candidate',
+                     lambda c: implies(and_(in_election(c), c.state == 'defeated'), c.vote == E.V0)),
+              props=['C06'])      # an excluded candidate holds no votes
     variant(2 * ghost('nH') + ghost('nP'))
 
 
@@ -129,6 +141,9 @@ def mpls_main_loop(self):
     invariant(E.round >= 1)
     invariant(implies(E.round == 1, forall('ref:droop.election.Election.Ballot', lambda b: implies(is_ballot(b), b.index == 0))))
     invariant(E.quota > E.V0)
+    invariant(forall('ref:droop.candidate.Candidate',
+                     lambda c: implies(and_(in_election(c), c.state == 'elected', not_(truthy(c.pending))), c.vote == E.quota)),
+              props=['C06'])      # a candidate whose surplus has been transferred keeps exactly the quota
     variant(ghost('nH'))
 
 
